@@ -55,6 +55,18 @@ func (t *Table) SetAttributeDefinition(attrs []*types.AttributeDefinition) {
 	}
 }
 
+// AddAttributeDefinition defines the attributes that are not defined yet, an attribute that is already defined keeps
+// its type: the stored keys were built with it
+func (t *Table) AddAttributeDefinition(attrs []*types.AttributeDefinition) {
+	for _, attr := range attrs {
+		if _, defined := t.AttributesDef[*attr.AttributeName]; defined {
+			continue
+		}
+
+		t.AttributesDef[*attr.AttributeName] = *attr.AttributeType
+	}
+}
+
 func parseKeySchema(schema []*types.KeySchemaElement) (keySchema, error) {
 	var ks keySchema
 
